@@ -143,7 +143,7 @@ fn main() {
                         if k % 6 == 5 { jobs.push(Box::new(move || sv::drop_dead_unix_case(i, &t))); }
                         else if k % 3 == 2 { jobs.push(Box::new(move || sv::drop_queued_case(i))); }
                         else { jobs.push(Box::new(move || sv::drop_case(i, k % 2 == 1, &t))); } },
-                    "burst" => for k in 0..n { let i = id; id += 1; let sz = [5usize, 16, 4, 8, 40][k % 5]; let held = [0usize, 1, 3, 0, 2][(k / 5 + k) % 5]; jobs.push(Box::new(move || sv::burst_case_held(i, sz, held))); },
+                    "burst" => for k in 0..n { let i = id; id += 1; let sz = [5usize, 16, 4, 8, 40, 200][k % 6]; let held = [0usize, 1, 3, 0, 2][(k / 5 + k) % 5]; jobs.push(Box::new(move || sv::burst_case_held(i, sz, held))); },
                     // one reclaim case per process (thread counts are per process): n = burst size
                     "reclaim" => { let i = id; id += 1; jobs.push(Box::new(move || sv::reclaim_case(i, n))); },
                     _ => {}
